@@ -1,7 +1,8 @@
 (* Runs coq/Lazy.v (extracted).
    B id:r1,r2 id: ...            -> "FWD id r.." / "REV id r.." / "DEPS id d.." lines then END
    V x ent attr ; t:e t:e ... ; id:type:ent.attr=r1,r2/ent.attr=... ...   -> INV y1 y2 ...
-   S <hex>   coq/P21Scan.v scan_section on the text after "DATA;" *)
+   S <hex>   coq/P21Scan.v scan_section on the text after "DATA;"
+   E e ; e:s1,s2 .. ; e:a1,a2 ..   coq/SuperIter.v init_iattrs -> ENT a1 a2 ... *)
 open Conv
 open Lazy
 
@@ -58,6 +59,22 @@ let () =
             Printf.printf "I %s %s %s\n" (nstr id) (let k = string_of_bytes kw in if k = "" then "(complex)" else k)
               (String.concat " " (Stdlib.List.map nstr refs))) insts;
         Printf.printf "END abort=%d endsec=%d stop=%d\n" (if ab then 1 else 0) (if P21Scan.at_endsec rest then 1 else 0) (Stdlib.List.length rest)
+      | "E" :: rest ->
+        (* E <e> ; e:s1,s2 ... ; e:a1,a2 ...   coq/SuperIter.v init_iattrs: the inverse attributes entity e gets entries for *)
+        let s = String.concat " " rest in
+        (match String.split_on_char ';' s with
+         | [q; sups; invs] ->
+           let assoc part = Stdlib.List.map (fun w ->
+               match String.split_on_char ':' w with
+               | [a; b] -> (n_of_int (int_of_string a), if b = "" then [] else Stdlib.List.map (fun x -> n_of_int (int_of_string x)) (String.split_on_char ',' b))
+               | _ -> failwith "bad pair") (split_ws part) in
+           let g = { SuperIter.s_supers = assoc sups; SuperIter.s_invs = assoc invs } in
+           let e = (match split_ws q with [a] -> n_of_int (int_of_string a) | _ -> failwith "bad query") in
+           let nstr v = string_of_z (match v with BinNums.N0 -> BinNums.Z0 | BinNums.Npos p -> BinNums.Zpos p) in
+           (match SuperIter.init_iattrs (nat_of_int 2000) g e with
+            | Some l -> Printf.printf "ENT %s\n" (String.concat " " (Stdlib.List.map nstr l))
+            | None -> print_endline "ENT OUT-OF-FUEL")
+         | _ -> print_endline "ENT ?")
       | _ -> ()
     done
   with End_of_file -> ()
